@@ -314,7 +314,7 @@ def run_shard(ctx, stats):
         fails = runner.triage(PID, case, history_predicate(case, stats), stats)
         if fails:
             return {"case": case, "failures": fails}
-    failure = runner.hyp_run(ctx, stats, cases(), predicate, BUDGET[ctx.tier])
+    failure = runner.hyp_run(ctx, stats, cases(), predicate, BUDGET[ctx.tier], limit=False)
     if failure or ctx.quick or ctx.shard >= 4:
         return failure
     return atheris_campaign(ctx, stats)
